@@ -1318,7 +1318,12 @@ int EGLPNUM_TYPENAME_ILLlib_addrow (
 			EGLPNUM_TYPENAME_EGlpNumZero (qslp->rangeval[nrows]);
 	}
 	ILL_FAILtrue (qslp->rownames == NULL, "must always be non NULL");
-	EGLPNUM_TYPENAME_ILLlib_findName (qslp, 1 /*row */ , name, nrows, buf);
+	rval = EGLPNUM_TYPENAME_ILLlib_findName (qslp, 1 /*row */ , name, nrows, buf);
+	if (rval)
+	{
+		QSlog("row name \"%s\" is already in use", name ? name : "");
+		ILL_CLEANUP;
+	}
 	ILL_UTIL_STR (qslp->rownames[nrows], buf);
 	ILLsymboltab_register (&qslp->rowtab, buf, qslp->nrows, &pind, &hit);
 	ILL_FAILfalse (hit == 0, "must be new");
@@ -2338,7 +2343,12 @@ int EGLPNUM_TYPENAME_ILLlib_addcol (
 	}
 
 	ILL_FAILtrue (qslp->colnames == NULL, "must always be non NULL");
-	EGLPNUM_TYPENAME_ILLlib_findName (qslp, 0 /*isRow */ , name, qslp->nstruct, buf);
+	rval = EGLPNUM_TYPENAME_ILLlib_findName (qslp, 0 /*isRow */ , name, qslp->nstruct, buf);
+	if (rval)
+	{
+		QSlog("column name \"%s\" is already in use", name ? name : "");
+		ILL_CLEANUP;
+	}
 	ILLsymboltab_register (&qslp->coltab, buf, qslp->nstruct, &pind, &hit);
 	ILL_FAILfalse ((pind == qslp->nstruct) && (hit == 0), "must be new");
 	ILL_UTIL_STR (qslp->colnames[qslp->nstruct], buf);
